@@ -411,8 +411,16 @@ class Gen:
         f = self.new_fn(1, m=7)
         slot = self.nslot; self.nslot += 1
         nested = self.rng.random() < 0.5
+        rng2 = random.Random(hash(self.rng.getstate()[1]))      # side stream: the main stream keeps its meaning
+        src = x
+        if rng2.random() < 0.5:
+            # the closure's node reads a top-level map over the variable, not the variable itself: if the dead node kept
+            # its input needed, that map's FUNCTION would run with no live observer (seeded change c05-invalidated-observer-only…)
+            g0 = self.new_fn(1, m=7)
+            self.act(f"map f{g0} n{x}")
+            src = self.add_node("map")
         bi = self.nbody; self.nbody += 1
-        self.defs.append(f"body b{bi} 2 map f{f} n{x} ; pub s{slot} %0 ; ret %0 | map f{f} n{x} ; pub s{slot} %0 ; ret %0")
+        self.defs.append(f"body b{bi} 2 map f{f} n{src} ; pub s{slot} %0 ; ret %0 | map f{f} n{src} ; pub s{slot} %0 ; ret %0")
         self.bodies_info.append(bi)
         if nested:
             bo = self.nbody; self.nbody += 1
@@ -438,11 +446,17 @@ class Gen:
             seq.reverse()
         if nested and self.rng.random() < 0.5:
             seq.append(f"set v{vi} {self.rng.randint(0, 4)}")
+        if rng2.random() < 0.35:
+            seq = [a for a in seq if not a.startswith(f"set v{vx} ")]      # the dead node's input is NOT written while observers live
+            late = self.rng.randint(0, 4)
+        else:
+            late = None
         for a in seq:
             self.act(a)
         self.act("stabilise")
-        self.act(f"set v{vx} {self.rng.randint(0, 4)}")
-        self.act("stabilise")
+        if late is None:
+            self.act(f"set v{vx} {self.rng.randint(0, 4)}")
+            self.act("stabilise")
         if leaked in self.tokens and self.rng.random() < 0.6:
             # the node is invalid by now: a further subscription / observer on it must not make the first
             # subscriber hear `Invalidated` a second time
@@ -450,6 +464,16 @@ class Gen:
             self.act("stabilise")
             self.act(f"observe @s{slot}")
             self.obs.append({"node": None, "clones": 1, "dis": False})
+            self.act("stabilise")
+        if rng2.random() < 0.6:
+            # everything unobserved, then the input is written: nothing may run
+            for o, ob in enumerate(self.obs):
+                if ob["clones"] > 0 and not ob["dis"]:
+                    self.act(f"disallow o{o}"); ob["dis"] = True
+            self.act("stabilise")
+            self.act(f"set v{vx} {rng2.randint(0, 4)}")
+            self.act("stabilise")
+            self.act(f"set v{vx} {rng2.randint(5, 6)}")
             self.act("stabilise")
         self.count("motif_leak" + ("_nested" if nested else ""))
 
@@ -1243,7 +1267,16 @@ def gen_limits(rng, debug=True):
         if variant == "reconf":
             for _ in range(rng.randint(1, 4)):
                 M = max(1, (k + 1) + rng.choice([-2, -1, 0, 0, 1, 2, 3]))
+                rng2 = random.Random(hash(rng.getstate()[1]))          # side stream
+                pending = rng2.random() < 0.5
+                if pending:
+                    # work is already queued when the limit changes (seeded change c19-rch-lower-bound-reset-on-resize)
+                    acts.append(f"set v0 {rng2.randint(4, 9)}")
+                    count("limits_reconf_with_pending_work")
                 acts.append(f"setmaxheight {M}")
+                if pending and rng2.random() < 0.6:
+                    acts.append("stabilise")
+                    acts.append("isstable")
                 if rng.random() < 0.6:
                     ext = rng.randint(0, 3)
                     top = chain(top, ext)
